@@ -241,6 +241,33 @@ func c19Run(r *vkit.Run) {
 			}
 		}
 	}
+	// compound operands in parentheses: a and (b or c) is the intersection of a with (b or c), and so on for the other
+	// three nestings -- parentheses group, whatever the precedence of the operators
+	{
+		tri := []string{`app="x"`, `y="a"`, `env="p"`, `x > 5`, `y!="b"`, `msg=~"a.*"`}
+		for bi, base := range c19Bases {
+			if bi >= 3 {
+				break
+			}
+			for i, a := range tri {
+				for j, b := range tri {
+					for k, c := range tri {
+						if i == j || j == k || i == k {
+							continue
+						}
+						visit(c19Input{Relation: "and", Queries: []string{base + " | " + a + " and (" + b + " or " + c + ")", base + " | " + a, base + " | " + b + " or " + c}})
+						visit(c19Input{Relation: "and", Queries: []string{base + " | (" + a + " or " + b + ") and " + c, base + " | " + a + " or " + b, base + " | " + c}})
+						visit(c19Input{Relation: "or", Queries: []string{base + " | " + a + " or (" + b + " and " + c + ")", base + " | " + a, base + " | " + b + " and " + c}})
+						visit(c19Input{Relation: "or", Queries: []string{base + " | (" + a + " and " + b + ") or " + c, base + " | " + a + " and " + b, base + " | " + c}})
+						if (i+j+k)%3 == 0 {
+							visit(c19Input{Relation: "and", Queries: []string{base + " | " + a + ", (" + b + " or " + c + ")", base + " | " + a, base + " | " + b + " or " + c}})
+							visit(c19Input{Relation: "and", Queries: []string{base + " | " + a + " (" + b + " or " + c + ")", base + " | " + a, base + " | " + b + " or " + c}})
+						}
+					}
+				}
+			}
+		}
+	}
 	// a storage that accepts everything: and / or / partition over the stream's own labels, filters first in the pipeline
 	for i, f := range fs {
 		if f.neg != "" {
